@@ -360,8 +360,84 @@ def work(item):
 
 
 # ---------------------------------------------------------------------------
+# histories of name hand-outs (the last clause of the property)
+
+NAME_ACTIONS = (
+    [("fresh", p) for p in ("k", "k_0", "k_1", "k_0_0", "<cond>", "<cond>_0", "temp")]
+    + [("use", n) for n in ("k", "k_0", "k_1", "<cond>", "<cond>_0", "temp_0")]
+    + [("if", None)])
+
+
+def run_name_history(hist):
+    """Carry out a history of builder calls on the REAL CodeBuilder.  Returns a
+    problem string or None.  A handed-out name must differ from every name handed
+    out before (used or not) and from every name an earlier statement mentions."""
+    import dagrt.language as L
+    handed = []
+    orig = L.CodeBuilder.fresh_var_name
+
+    def rec(self, prefix="temp"):
+        n = orig(self, prefix)
+        handed.append(n)
+        return n
+    L.CodeBuilder.fresh_var_name = rec
+    try:
+        cb = L.CodeBuilder("p")
+        cb.__enter__()
+        user = set()
+        for k, (kind, arg) in enumerate(hist):
+            before = len(handed)
+            earlier_handed = list(handed)
+            earlier_user = set(user)
+            if kind == "fresh":
+                cb.fresh_var_name(arg)
+            elif kind == "use":
+                cb.assign(arg, 1)
+                user.add(arg)
+            else:
+                with cb.if_("<state>y", "<", 0):
+                    cb.assign("q", 1)
+                user |= {"<state>y", "q"}
+            for n in handed[before:]:
+                if n in earlier_handed:
+                    return "call %d (%s %s): the builder handed out %r, which it had handed out before (%s)" % (k, kind, arg, n, earlier_handed)
+                if n in earlier_user:
+                    return "call %d (%s %s): the builder handed out %r, which an earlier statement of the user uses" % (k, kind, arg, n)
+        cb.__exit__(None, None, None)
+    finally:
+        L.CodeBuilder.fresh_var_name = orig
+    return None
+
+
+def work_names(item):
+    tr = common.FunctionTrace()
+    tr.start()
+    L_, first = item["L"], item["first"]
+
+    def h(ex):
+        hist = [NAME_ACTIONS[first]]
+        for _ in range(L_ - 1):
+            hist.append(NAME_ACTIONS[ex.choice(len(NAME_ACTIONS), "act")])
+        ex.stats.obligations += 1
+        bad = run_name_history(hist)
+        if bad is None:
+            ex.stats.discharged += 1
+            return None
+        ex.stats.refuted += 1
+        return {"names_history": [list(a) for a in hist], "problem": bad}
+    ex = Explorer(timeout_ms=2000, max_paths=200000, max_decisions=200)
+    res = ex.explore(h)
+    tr.stop()
+    cands = [r for _, r in res if r is not None]
+    return {"stats": ex.stats.as_dict(), "candidates": cands[:2], "evaluations": ex.stats.paths, "programs": 0,
+            "distinct_nontrivial": ex.stats.paths, "samples": [], "functions": sorted(tr.seen),
+            "extra": {"name_histories": ex.stats.paths}}
+
 
 def replay(d):
+    if "names_history" in d:
+        bad = run_name_history([tuple(a) for a in d["names_history"]])
+        return {"reproduced": bad is not None, "detail": "builder calls %s: %s" % (d["names_history"], bad)}
     prog = d["prog"]
     dag, builders, handed = build_instrumented(prog)
     if "graph_problem" in d:
@@ -425,6 +501,7 @@ def selftests():
     prog = [p for p in pg.corpus() if p["name"] == "write_ordering"][0]
     s, c, info = check_program(prog)
     res["baseline_write_ordering_ok"] = not c
+    res["name_history_baseline_ok"] = run_name_history([("fresh", "k"), ("fresh", "k"), ("fresh", "k_0"), ("use", "k_1"), ("fresh", "k")]) is None
     orig = L.CodeBuilder._add_statement
 
     def bad_add(self, stmt):
@@ -464,7 +541,12 @@ def main(tier, seed):
         progs.append(g.program(i))
     for part in pmap("vf.checks.c02", "work", [{"progs": p} for p in chunks(progs, common.NPROC * 6)]):
         run.absorb(part)
-    run.bounds = {"curated_programs": ncur, "small_exhaustive_programs": len(small), "random_programs": nrand,
+    LN = 3 if tier == "quick" else 5
+    for part in pmap("vf.checks.c02", "work_names", [{"L": LN, "first": k} for k in range(len(NAME_ACTIONS))]):
+        run.absorb(part)
+    run.bounds = {"name_histories": "all sequences of %d builder calls over %d actions (fresh_var_name with 7 prefixes, a user assignment to one of 6 "
+                                    "generated-looking names, an if_ block), forked by the solver" % (LN, len(NAME_ACTIONS)),
+                  "curated_programs": ncur, "small_exhaustive_programs": len(small), "random_programs": nrand,
                   "statements_per_phase": "<= ~20", "stage1_paths_per_pair": 300, "stage2_paths_per_pair": 200,
                   "loop_bound_and_index_variables_range": "0..2 on the arbitrary store"}
     run.selftests = selftests()
